@@ -2,11 +2,11 @@
 """usage: tools/seed_prompt3.py <Cxx>  -> writes /tmp/seed_prompt_<Cxx>c.txt (round 3: up to three changes, each at a different anchored mechanism)"""
 import json, sys, os, re
 pid = sys.argv[1]
-name = pid + 'c'
+name = pid + (sys.argv[2] if len(sys.argv) > 2 else 'c')
 props = [json.loads(l) for l in open('/verif/properties.jsonl')]
 p = [x for x in props if x['id'] == pid][0]
 done = []
-for d in (pid, pid + 'b'):
+for d in sorted(x for x in os.listdir('/verif/seeded') if x.startswith(pid)):
     m = '/verif/seeded/%s/meta.json' % d
     if os.path.exists(m):
         meta = json.load(open(m))
